@@ -30,7 +30,7 @@ def check(rep, tier):
                    "multiprocessing fork start method; OS scheduling sampled via cpu_count override; the order freedom of unordered pool APIs (imap_unordered) is exercised adversarially by a harness-side pool wrapper"]
     plans = [("homogeneous", 3, [("sequential", None), ("async", 2), ("async", 16)]), ("homogeneous", 5, [("sequential", None), ("async", 4)]),
              ("spatial_1D", 2, [("sequential", None), ("async", 2)]),
-             ("spatial_2D", 3, [("async", 3)])]       # 2D: parallel rows vs single runs with seed i (the finishing order of the workers must not matter)
+             ("spatial_2D", 2, [("sequential", None), ("async", 2)])]       # 2D: sequential (several repetitions in ONE process) and parallel rows vs single runs with seed i
     if tier != "quick":
         plans += [("homogeneous", 8, [("sequential", None), ("async", 1), ("async", 3)]), ("spatial_1D", 3, [("sequential", None), ("async", 16)]),
                   ("spatial_2D", 2, [("sequential", None), ("async", 2)])]
@@ -60,7 +60,7 @@ def check(rep, tier):
                 with impl.quiet(), impl.adversarial_pool():
                     S.run(how=how)
                     tb, idx = table(S)
-                    if how == "sequential":
+                    if how == "sequential" and dim != "spatial_2D":
                         S.run(how=how)
                         tb2, _ = table(S)
                         if not all(same(a, b) for a, b in zip(tb, tb2)) or len(tb) != len(tb2):
